@@ -27,19 +27,19 @@ variable {K : Type} [Field K] (c c3 : K) (fn : Fns K)
 theorem N3_tt_apply (hc : c * c = 2) (h2 : (2:K) ≠ 0) (a : Fin 9 → Fin 9 → K) (x : Fin 9 → K) :
     gen% (Gen.N3_tt_apply_all c c3 fn) | a 9 9 | x 9
       = T2.tens (T4.app (T4.ofTT a) (T2.ofTens x)) := by
-  t4_eq hc
+  rw [tens_app_TT hc h2]; t4_eq hc
 theorem N3_tt_applyL (hc : c * c = 2) (h2 : (2:K) ≠ 0) (x : Fin 9 → K) (a : Fin 9 → Fin 9 → K) :
     gen% (Gen.N3_tt_applyL_all c c3 fn) | x 9 | a 9 9
       = T2.tens (T4.appL (T2.ofTens x) (T4.ofTT a)) := by
-  t4_eq hc
+  rw [tens_appL_TT hc h2]; t4_eq hc
 theorem N3_tt_comp (hc : c * c = 2) (h2 : (2:K) ≠ 0) (a : Fin 9 → Fin 9 → K) (b : Fin 9 → Fin 9 → K) :
     gen% (Gen.N3_tt_comp_all c c3 fn) | a 9 9 | b 9 9
       = rows99 (T4.stoTT (T4.comp (T4.ofTT a) (T4.ofTT b))) := by
-  t4_eq hc
+  rw [stoTT_comp_TT_TT hc h2]; t4_eq hc
 theorem N3_tt_dyad (hc : c * c = 2) (h2 : (2:K) ≠ 0) (x : Fin 9 → K) (y : Fin 9 → K) :
     gen% (Gen.N3_tt_dyad_all c c3 fn) | x 9 | y 9
       = rows99 (T4.stoTT (T2.dyad (T2.ofTens x) (T2.ofTens y))) := by
-  t4_eq hc
+  rw [stoTT_dyad hc h2]; t4_eq hc
 theorem N3_tt_Id (hc : c * c = 2) (h2 : (2:K) ≠ 0)  :
     gen% (Gen.N3_tt_Id_all c c3 fn)
       = rows99 (T4.stoTT T4.id) := by
@@ -88,6 +88,6 @@ theorem N3_tt_convert_from_t2tost2 (hc : c * c = 2) (h2 : (2:K) ≠ 0) (a : Fin 
 theorem N3_tt_comp_s2t_ts (hc : c * c = 2) (h2 : (2:K) ≠ 0) (a : Fin 9 → Fin 6 → K) (b : Fin 6 → Fin 9 → K) :
     gen% (Gen.N3_tt_comp_s2t_ts_all c c3 fn) | a 9 6 | b 6 9
       = rows99 (T4.stoTT (T4.comp (T4.ofS2T c a) (T4.ofTS c b))) := by
-  t4_eq hc
+  rw [stoTT_comp_S2T_TS hc h2]; t4_eq hc
 
 end TfelVerif.C02.Props
